@@ -108,7 +108,8 @@ end Nsp
 def ownsName (outer : SymScope) (x : String) : Except Err Bool :=
   match outer.lookup x with
   | none => .error (.keyError x)
-  | some s => .ok (s.isAssigned || s.isImported || (s.isParameter && !s.isGlobal))
+  -- a function that rebinds the name through `nonlocal` does not own it
+  | some s => .ok (!s.isNonlocal && (s.isAssigned || s.isImported || (s.isParameter && !s.isGlobal)))
 
 /-- The enclosing scopes of a namespace, innermost first, as (kind, symtable, dict name). -/
 abbrev Stack := List (ScopeKind × SymScope × String)
